@@ -4,7 +4,12 @@
    of publishBlock.  Because `select` chooses at random among ready cases the comparison is trace
    inclusion: [admits] explores every schedule of the model (breadth first, states de-duplicated,
    branches pruned as soon as they disagree with the observed starts) and accepts iff some schedule
-   yields exactly the observed starts before H. *)
+   yields exactly the observed starts before H.
+   The notifications of a case come from two sources: bare calls of NotifyNewTransactions
+   ([lc_notifs]) and the real Reaper ([lc_revs] = the calls of Reaper.SubmitTxs the harness made or
+   the reaper's ticker made, with the scripted answers of the executor and sequencer doubles): the
+   model's loop is run on [lc_notifs ++ rnotifs lc_revs], and the batches the sequencer double
+   received ([lc_calls]: instant, ids, accepted) must be exactly [rcalls lc_revs]. *)
 From Coq Require Import ZArith NArith List Bool.
 From Verif Require Import Model.Lazy.
 Import ListNotations.
@@ -13,6 +18,8 @@ Open Scope Z_scope.
 Record lcase := {
   lc_cfg : cfg;
   lc_notifs : list Z;
+  lc_revs : list (Z * rin);               (* calls of Reaper.SubmitTxs, in order *)
+  lc_calls : list (Z * (list N * bool));  (* observed calls of SubmitBatchTxs *)
   lc_H : Z;
   lc_obs : list Z;        (* observed production starts < H, in order *)
   lc_fuel : N
@@ -78,10 +85,26 @@ Fixpoint explore (c : cfg) (H : Z) (fuel : nat) (front : list xst) : bool :=
   end.
 
 Definition admits (k : lcase) : bool :=
-  explore (lc_cfg k) (lc_H k) (N.to_nat (lc_fuel k)) [(init (lc_cfg k) (lc_notifs k), (lc_obs k, 0%N))].
+  explore (lc_cfg k) (lc_H k) (N.to_nat (lc_fuel k))
+          [(init (lc_cfg k) (lc_notifs k ++ rnotifs (lc_revs k)), (lc_obs k, 0%N))].
 
-(* 1 = no schedule of the model yields the observed starts *)
-Definition check_case (k : lcase) : list N := if admits k then [] else [1%N].
+Fixpoint leqb {A} (e : A -> A -> bool) (a b : list A) : bool :=
+  match a, b with
+  | [], [] => true
+  | x :: a', y :: b' => e x y && leqb e a' b'
+  | _, _ => false
+  end.
+
+Definition calleqb (a b : Z * (list N * bool)) : bool :=
+  (fst a =? fst b) && leqb N.eqb (fst (snd a)) (fst (snd b)) && Bool.eqb (snd (snd a)) (snd (snd b)).
+
+(* the reaper handed the sequencer exactly the batches of the model, at the same instants *)
+Definition reaper_agrees (k : lcase) : bool := leqb calleqb (rcalls (lc_revs k)) (lc_calls k).
+
+(* 1 = no schedule of the model yields the observed starts; 2 = the batches handed to the sequencer
+   differ from the model's *)
+Definition check_case (k : lcase) : list N :=
+  (if admits k then [] else [1%N]) ++ (if reaper_agrees k then [] else [2%N]).
 
 Fixpoint mismatches_from (i : N) (cs : list lcase) : list (N * list N) :=
   match cs with
